@@ -485,7 +485,9 @@ func (c *SCIONClient) measureClockOffsetSCION(ctx context.Context, mtrcs *scionC
 								Header:     slayers.PacketAuthOption{EndToEndOption: authOpt},
 								ScionLayer: &scionLayer,
 								PldType:    slayers.L4UDP,
-								Pld:        buf[len(buf)-int(udpLayer.Length):],
+								// the UDP datagram as decoded (header and payload are adjacent
+								// in buf), not the tail of buf: bytes may follow the datagram
+								Pld: udpLayer.Contents[:len(udpLayer.Contents)+len(udpLayer.Payload)],
 							},
 							c.Auth.buf,
 							c.Auth.mac,
